@@ -1,10 +1,14 @@
 package checks
 
 import (
+	"context"
 	"encoding/json"
 	"fmt"
 	"sort"
 	"strings"
+	"sync/atomic"
+
+	"github.com/creachadair/jrpc2"
 
 	"verif/harness/peer"
 	"verif/harness/sched"
@@ -28,7 +32,7 @@ import (
 
 type c07member struct {
 	ID   string // raw JSON id; "" = notification
-	Kind byte   // 'G' stubborn gated, 'i' instant, 'e' error, 'n' unknown method, 'r' reserved rpc.x
+	Kind byte   // 'G' stubborn gated, 'i' instant, 'e' error, 'q' error with code InvalidRequest, 'n' unknown method, 'r' reserved rpc.x
 	Tag  string
 	St   int  // 0 not dispatched, 1 duplicate-rejected, 2 running, 3 done, 4 checked and parked at the barrier
 	Pre  bool // context cancelled (CancelRequest) before the handler could start: it never runs
@@ -156,7 +160,7 @@ func (s *c07state) start(i int) {
 		if mem.St != 4 {
 			continue
 		}
-		if mem.Pre && (mem.Kind == 'G' || mem.Kind == 'i' || mem.Kind == 'e') {
+		if mem.Pre && (mem.Kind == 'G' || mem.Kind == 'i' || mem.Kind == 'e' || mem.Kind == 'q') {
 			mem.St = 3 // answered with a cancellation error; the handler never runs
 			continue
 		}
@@ -169,7 +173,7 @@ func (s *c07state) start(i int) {
 			} else {
 				mem.St = 2
 			}
-		case 'i', 'e':
+		case 'i', 'e', 'q':
 			s.Started[mem.Tag] = true
 			s.Exited[mem.Tag] = true
 			mem.St = 3
@@ -192,12 +196,14 @@ func (s *c07state) deliver(i int, seq map[string]string) {
 		switch {
 		case mem.St == 1:
 			parts = append(parts, fmt.Sprintf("id=%s error=-32600:duplicate request ID", mem.ID))
-		case mem.Pre && (mem.Kind == 'G' || mem.Kind == 'i' || mem.Kind == 'e'):
+		case mem.Pre && (mem.Kind == 'G' || mem.Kind == 'i' || mem.Kind == 'e' || mem.Kind == 'q'):
 			parts = append(parts, fmt.Sprintf("id=%s error=-32097:", mem.ID))
 		case mem.Kind == 'G' || mem.Kind == 'i':
 			parts = append(parts, fmt.Sprintf("id=%s result=%s/TOKEN", mem.ID, mem.Tag))
 		case mem.Kind == 'e':
 			parts = append(parts, fmt.Sprintf("id=%s error=7:E:%s", mem.ID, mem.Tag))
+		case mem.Kind == 'q':
+			parts = append(parts, fmt.Sprintf("id=%s error=-32600:R:%s", mem.ID, mem.Tag))
 		default:
 			parts = append(parts, fmt.Sprintf("id=%s error=-32601:", mem.ID))
 		}
@@ -331,7 +337,7 @@ func c07alphabet() []c07op {
 	}
 	batch := func(ms ...c07member) c07op { return c07op{Kind: "msg", Members: ms, Batch: true} }
 	return []c07op{
-		call("1", 'G'), call("1", 'i'), call("1", 'n'), call("1", 'e'), call("1", 'r'),
+		call("1", 'G'), call("1", 'i'), call("1", 'n'), call("1", 'e'), call("1", 'q'), call("1", 'r'),
 		call("12", 'G'), call("12", 'i'), call(`"a"`, 'G'),
 		call("", 'G'), // gated notification: parks the dispatcher for later messages
 		batch(c07member{ID: "1", Kind: 'G'}, c07member{ID: "1", Kind: 'G'}),
@@ -345,7 +351,7 @@ func c07alphabet() []c07op {
 func c07wire(o c07op) string {
 	var parts []string
 	for _, m := range o.Members {
-		method := map[byte]string{'G': "G", 'i': "i", 'e': "e", 'n': "nosuch", 'r': "rpc.reserved"}[m.Kind]
+		method := map[byte]string{'G': "G", 'i': "i", 'e': "e", 'q': "r", 'n': "nosuch", 'r': "rpc.reserved"}[m.Kind]
 		parts = append(parts, peer.Req(m.ID, method, m.Tag))
 	}
 	if o.Batch {
@@ -474,9 +480,21 @@ func (o c07obs) describe() string {
 	return fmt.Sprintf("reserved=%v queue=%d entered=%v exited=%v replies=%v", o.reserved, o.queue, st, ex, o.replies)
 }
 
+type c07rpclog struct{ n *int64 }
+
+func (l c07rpclog) LogRequest(context.Context, *jrpc2.Request)   { atomic.AddInt64(l.n, 1) }
+func (l c07rpclog) LogResponse(context.Context, *jrpc2.Response) { atomic.AddInt64(l.n, 1) }
+
 func c07exec(c *vt.Ctx, hist []c07op, ctrl *sched.Controller) {
 	peer.Bubble(c, ctrl, func() {
-		rig := peer.NewServerRig(c, ctrl, peer.ServerOpts{Concurrency: 16})
+		opts := peer.ServerOpts{Concurrency: 16}
+		var logged int64
+		if vt.Hash64(c07hsig(hist))%2 == 0 {
+			// half of the histories run with an RPC logger installed (a configuration
+			// that changes which contexts the server creates)
+			opts.RPCLog = c07rpclog{&logged}
+		}
+		rig := peer.NewServerRig(c, ctrl, opts)
 		states := []*c07state{{Parked: -1, Reserved: map[string]int{}, Started: map[string]bool{}, Exited: map[string]bool{},
 			Cancelled: map[string]bool{}, Opened: map[string]bool{}}}
 		var gates []string // gate tags in creation order, not yet released
@@ -673,7 +691,7 @@ func init() {
 	vt.Register(&vt.Check{
 		Prop:  "C07",
 		Level: "exploration",
-		Rule: "histories over {call(id in {1,12,\"a\"}, method in {stubborn gated, instant, error, unknown, reserved rpc.*}), batches with equal ids / mixed outcomes, gated notification (parks the dispatcher), " +
+		Rule: "histories over {call(id in {1,12,\"a\"}, method in {stubborn gated, instant, error, error coded -32600 by the handler, unknown, reserved rpc.*}), batches with equal ids / mixed outcomes, gated notification (parks the dispatcher), " +
 			"CancelRequest(1|12), release of the k-th oldest gate}: all histories up to length 3 (4 in thorough) plus seeded longer ones; after every operation the reserved-id snapshot, queue length, " +
 			"handlers entered/exited and replies must be admissible under the reference reservation model; plus delay-bounded schedules and seeded perturbation. " +
 			"distinct_nontrivial = distinct (history, delay set) in which an id is reused or a CancelRequest names a used id",
